@@ -570,7 +570,14 @@ func (t *taintEngine) callResult(call *ssa.Call, idx int) tset {
 		return nil
 	}
 	if bi, ok := call.Call.Value.(*ssa.Builtin); ok {
-		_ = bi
+		// min / max hand on one of their arguments
+		if bi.Name() == "min" || bi.Name() == "max" {
+			var out tset
+			for _, a := range call.Call.Args {
+				out = mergeT(out, t.taint(a))
+			}
+			return out
+		}
 		return nil
 	}
 	sc := call.Common().StaticCallee()
@@ -674,6 +681,12 @@ func (t *taintEngine) derivGroup(v ssa.Value) (map[ssa.Value]bool, map[string]bo
 			}
 		case *ssa.Extract:
 			// member
+		case *ssa.Call:
+			if bi, ok := x.Call.Value.(*ssa.Builtin); ok && (bi.Name() == "min" || bi.Name() == "max") {
+				for _, a := range x.Call.Args {
+					walk(a, d+1)
+				}
+			}
 		}
 	}
 	walk(v, 0)
@@ -1608,6 +1621,12 @@ func (t *taintEngine) scanIndex() []taintFinding {
 				if o.sizeGroup != nil && t.inGroupFn(o.sizeGroup, nil)(quantity) {
 					// the buffer was created with (at least) this size
 					n++
+					if sub := signedDifference(quantity); sub != nil {
+						if neg, npath := t.negativeUnchecked(fn, in, quantity, sub); neg {
+							out = append(out, taintFinding{Fn: fn, Instr: in, Kind: "index", What: fmt.Sprintf("%s#%d", what, n), Origin: origin + " (a signed difference that is never tested for being negative)", Path: npath, OK: false})
+							return
+						}
+					}
 					out = append(out, taintFinding{Fn: fn, Instr: in, Kind: "index", What: fmt.Sprintf("%s#%d", what, n), Origin: origin + " (the buffer was created with a size computed from it)", OK: true})
 					return
 				}
@@ -1863,6 +1882,12 @@ func signedDifference(v ssa.Value) *ssa.BinOp {
 			if x.Op == token.ADD || x.Op == token.SUB {
 				walk(x.X, d+1)
 				walk(x.Y, d+1)
+			}
+		case *ssa.Call:
+			if bi, ok := x.Call.Value.(*ssa.Builtin); ok && (bi.Name() == "min" || bi.Name() == "max") {
+				for _, a := range x.Call.Args {
+					walk(a, d+1)
+				}
 			}
 		}
 	}
